@@ -213,6 +213,61 @@ def run_bfs(max_states, deep=False):
     return res, stats["probes"]
 
 
+def run_claims(warm_up=()):
+    """two decoders given DIFFERENT address claims from the same source address (NAMEs that differ in a single part):
+    the identity each one attaches must be the database decode of the NAME that very decoder was given last.  The
+    expectation comes from mc/refdb.py, not from another decoder of this process (a process-wide cache would fool that)."""
+    from . import c11
+    names = {k: c11.NAMES[k] for k in "abdefghi"}
+    hd = wire.ebyte_packet(wire.can_id(2, 127250, 1, 255), bytes.fromhex("0010270000ff7ffd"))
+    evs = {}
+    for who in ("X", "Z"):
+        for k, nm in names.items():
+            evs[f"{who}:claim_{k}"] = (who, wire.claim_packet(1, nm), nm)
+        evs[f"{who}:data"] = (who, hd, None)
+
+    seen_in_process = []        # claims any decoder of this process was given so far, in order of first appearance
+    for k in warm_up:
+        NMEA2000Decoder().decode_tcp(wire.claim_packet(1, names[k]))
+        seen_in_process.append(k)
+
+    class S:
+        def __init__(self):
+            self.d = {"X": NMEA2000Decoder(), "Z": NMEA2000Decoder(build_network_map=True)}
+            self.last = {"X": None, "Z": None}
+
+    def step(s, name):
+        who, pkt, nm = evs[name]
+        try:
+            m = s.d[who].decode_tcp(pkt)
+        except Exception as ex:  # noqa: BLE001
+            return [{"kind": "decoder_raises", "facts": {}, "detail": f"[event {name}] {type(ex).__name__}: {ex}", "signature": "claims:raise"}]
+        if nm is not None:
+            s.last[who] = nm
+            k = name.split("_")[1]
+            if k not in seen_in_process:
+                seen_in_process.append(k)
+        want = c11.ref_identity(s.last[who])
+        if m is None:
+            if want is None and who == "Z":
+                return []            # network mapping on, source has not claimed: withheld
+            return [{"kind": "message_missing", "facts": {}, "detail": f"[event {name}] nothing returned", "signature": "claims:none"}]
+        got = c11.got_identity(m.source_iso_name)
+        if got != want:
+            other = "Z" if who == "X" else "X"
+            leaked = got == c11.ref_identity(s.last[other]) and got is not None
+            return [{"kind": "identity_from_another_decoder" if leaked else "identity_wrong", "facts": {"probe": "claims"},
+                     "detail": f"[event {name}] decoder {who} attached {got}, the NAME it was given last decodes to {want}"
+                               + (f" (that is what decoder {other} was given)" if leaked else ""),
+                     "signature": f"claims:{'leak' if leaked else 'wrong'}", "case": {"claimed_earlier_in_process": list(seen_in_process)}}]
+        return []
+
+    def key(s):
+        return common.canon_key([s.d["X"], s.d["Z"], s.last["X"], s.last["Z"]])
+    res = xstate.bfs(S(), lambda s: list(evs), step, key, max_states=5000, nontrivial=lambda s: s.last["X"] != s.last["Z"], stop_after=6)
+    return res
+
+
 def config_checks():
     """caller-owned argument objects and defaults survive construction; decoders built from the same objects behave alike"""
     vios = []
@@ -251,21 +306,24 @@ def config_checks():
 def run(ctx):
     res, nprobes = run_bfs(60000 if ctx.thorough else 20000, ctx.thorough)
     n_cfg, cvios = config_checks()
-    vios = res.violations + cvios
+    cres = run_claims()
+    vios = res.violations + cvios + cres.violations
     cov = {
-        "states": res.states, "transitions": res.transitions, "traces_validated_against_impl": res.transitions * 2 + nprobes,
-        "evaluations": res.transitions + nprobes + n_cfg, "distinct_nontrivial": res.nontrivial,
+        "states": res.states + cres.states, "transitions": res.transitions + cres.transitions,
+        "traces_validated_against_impl": res.transitions * 2 + nprobes + cres.transitions,
+        "evaluations": res.transitions + nprobes + n_cfg + cres.transitions, "distinct_nontrivial": res.nontrivial,
         "distinct_outcomes": 1 + len({v["kind"] for v in vios}),
         "rule": "BFS states of (decoder X, decoder Y, decoder R that never sees inputs X rejected); every transition feeds one of 26 (thorough: 37) events to X, Y and P (another configuration) (and to R unless X rejected it) and runs 3 probes on a deep copy of X; "
                 "non-trivial = X holds at least one partly received fast-packet message",
         "samples": [{"history": h} for h in res.samples[:2]] or [{"history": []}],
         "probes_run": nprobes, "max_depth": res.max_depth, "configuration_checks": n_cfg,
-        "bound_completed": "fixed point (frontier emptied)" if res.closed else f"stopped: {res.cap_hit}",
-        "exhaustive": bool(res.closed),
+        "claims_search": {"states": cres.states, "transitions": cres.transitions, "closed": cres.closed},
+        "bound_completed": "fixed point (frontier emptied), also in the two-decoder search over 8 NAMEs differing in single parts" if res.closed and cres.closed else f"stopped: {res.cap_hit or cres.cap_hit}",
+        "exhaustive": bool(res.closed and (cres.closed or cres.violations)),
     }
     return {"coverage": cov, "violations": vios,
             "assumptions": ["probes use sequence counters (5, 6) that the history never uses, as the property states ('fresh counter')",
-                            "address claims for the probes' sources are outside the alphabet (identity is C11's subject)"]}
+                            "in the main search address claims are outside the alphabet; a second search gives two decoders different claims and compares with the database decode of the NAME"]}
 
 
 def replay(ctx, rep):
@@ -289,7 +347,10 @@ def replay(ctx, rep):
         return out
     xstate.bfs = forced
     try:
-        res, _ = run_bfs(10)
+        if hist and ":" in hist[0]:
+            res = run_claims(c.get("claimed_earlier_in_process", ()))
+        else:
+            res, _ = run_bfs(10, any(e not in events(False) for e in hist))
     finally:
         xstate.bfs = orig
     return res.violations
